@@ -276,6 +276,22 @@ def d3_pam_three_way(ck):
              'frames with %s are covered by no reassignment mask and keep the '
              'sentinel label/distance -1' % (
                  ['%s' % {'%s %s %s' % k: v for k, v in a.items()} for a in uncovered][:2]))
+    # (2b) pairwise disjointness: a frame selected by two masks is written twice
+    # and keeps whatever the LATER store wrote, regardless of which case applies
+    names = list(trees)
+    for i in range(len(names)):
+        for j in range(i + 1, len(names)):
+            both = []
+            for vals in itertools.product([False, True], repeat=len(keys)):
+                asg = dict(zip(keys, vals))
+                if eval_mask(trees[names[i]][0], asg) and eval_mask(trees[names[j]][0], asg):
+                    both.append(asg)
+            ck.check(not both, rule + '.disjoint', mod, masks_a[names[j]][0], '_kmedoids_pam_update',
+                     '%s := %s  vs  %s := %s' % (names[i], u(trees[names[i]][1]), names[j], u(trees[names[j]][1])),
+                     'the two masks select disjoint frame sets',
+                     'masks `%s` and `%s` overlap (e.g. when %s): those frames are written by both '
+                     'cases and keep the later one, e.g. the old label although the proposal is strictly '
+                     'nearer' % (names[i], names[j], {'%s %s %s' % k: v for k, v in both[0].items()} if both else ''))
     # (3) paired sources per mask
     for m, (tr, v) in trees.items():
         a_st = masks_a[m][0]
